@@ -15,6 +15,10 @@ static var* vals;                 /* array in main's frame (copies are collector
 static char kinds[MAXT];
 struct Blob16 { unsigned char b[16]; };
 var Blob16 = Cello(Blob16);
+/* plain structs whose size is not a multiple of the hash function's word: what lies BEHIND the value must not matter */
+struct Blob12 { unsigned char b[12]; }; struct Blob5 { unsigned char b[5]; };
+var Blob12 = Cello(Blob12); var Blob5 = Cello(Blob5);
+static int is_blob(var t) { return t == Blob16 || t == Blob12 || t == Blob5; }
 static var* keepalive;            /* containers that embed an "elem" instance (also in main's frame) */
 
 static void desc(var o);
@@ -28,7 +32,7 @@ static void desc_scalar(var o) {
     ev_s("["); for (int i = 0; i < 4; i++) { if (i) ev_s(","); ev_i(l[i]); } ev_s("]]"); }
   else if (t == String) { ev_s("[\"S\",["); const char* s = ((struct String*)o)->val; for (size_t i = 0; s[i]; i++) { if (i) ev_s(","); ev_i((unsigned char)s[i]); } ev_s("]]"); }
   else if (t == Type) { ev_s("[\"Y\",["); const char* s = c_str(o); for (size_t i = 0; s[i]; i++) { if (i) ev_s(","); ev_i((unsigned char)s[i]); } ev_s("]]"); }
-  else if (t == Blob16) { ev_s("[\"X\",["); for (int i = 0; i < 16; i++) { if (i) ev_s(","); ev_i(((struct Blob16*)o)->b[i]); } ev_s("]]"); }
+  else if (is_blob(t)) { ev_s("[\"X\",["); for (size_t i = 0; i < size(t); i++) { if (i) ev_s(","); ev_i(((unsigned char*)o)[i]); } ev_s("]]"); }
   else ev_s("[\"?\",[]]");
 }
 static void desc(var o) {
@@ -68,7 +72,7 @@ int main(int argc, char** argv) {
       else if (k == 'F') { uint64_t b = strtoull(hc_w[3], NULL, 16); double d; memcpy(&d, &b, 8); vals[t] = new(Float, $F(d)); }
       else if (k == 'S') { char buf[4096]; size_t n = hc_unhex(hc_w[3], (unsigned char*)buf, sizeof buf - 1); buf[n] = 0; vals[t] = new(String, $S(buf)); }
       else if (k == 'Y') vals[t] = builtin_type(hc_w[3]);
-      else if (k == 'X') { struct Blob16* b = alloc(Blob16); hc_unhex(hc_w[3], b->b, 16); vals[t] = b; }
+      else if (k == 'X') { size_t hl = strlen(hc_w[3]); var bt = hl <= 10 ? Blob5 : hl <= 24 ? Blob12 : Blob16; var b = alloc(bt); hc_unhex(hc_w[3], b, size(bt)); vals[t] = b; }
       else if (k == 'A' || k == 'L' || k == 'U') {
         int n = (int)hc_int(3);
         var et = n ? type_of(vals[hc_int(4)]) : Int;
@@ -91,6 +95,7 @@ int main(int argc, char** argv) {
       else if (hc_is(3, "elem")) { var a = new(Array, ty, src); keepalive[t2] = a; vals[t2] = get(a, $I(0)); }
       else { /* stack: a header + body in this frame would die with the block; use static storage tagged AllocStack */
         char* buf = calloc(1, sizeof(struct Header) + size(ty) + 8); var o = header_init(buf, ty, AllocStack);
+        memset((char*)o + size(ty), 0x5A, 8);                   /* caller-owned storage: arbitrary bytes follow the value */
         if (ty == String) { ((struct String*)o)->val = strdup(c_str(src)); } else memcpy(o, src, size(ty));
         vals[t2] = o; }
       continue;
